@@ -10,8 +10,10 @@
          "wr":[{"k","st","p"}..]}  writes to the RTP / RTCP stream, in order (decoded formatter results)
      {"a":"close","d":[..],"wr":[..]}   Close returned; anything observed since the last barrier
      {"a":"end","d":[..],"wr":[..]}     anything observed after Close had returned
-     {"a":"ctorerr"} {"a":"blocked"}    never accepted *)
+     {"a":"ctorerr"}                    NewInterceptor returned an error (accepted only by the Strict probe configuration)
+     {"a":"blocked"}                    never accepted *)
 EXTENDS PacketDump, Json, IOUtils
+CONSTANT Strict      \* TRUE only for the expectation probes: demand the documented ErrBothBinaryAndDeprecatedFormat
 Trace == ndJsonDeserialize(IOEnv.VERIF_TRACE)
 KnownSeq == ndJsonDeserialize(IOEnv.VERIF_KNOWN)
 Known == {KnownSeq[i].tag : i \in DOMAIN KnownSeq}
@@ -24,7 +26,9 @@ Init == l = 1 /\ cfg = NoCfg /\ x = Open /\ devs = {} /\ taint = ""
 
 Expected(e) == BurstDumps(cfg, x, e.calls)
 Accept(e) ==
-  IF e.a = "calls" THEN
+  IF e.a = "ctorerr" THEN Strict /\ BothFormattersAccepted(cfg)
+  ELSE IF e.a = "calls" THEN
+     /\ ~(Strict /\ BothFormattersAccepted(cfg))
      /\ Len(e.fwd) = Len(e.calls) /\ Len(e.same) = Len(e.calls) /\ Len(e.post) = Len(e.calls)
      /\ \A i \in DOMAIN e.calls :
            /\ e.fwd[i] = Forward(e.calls[i]) /\ e.same[i]                      \* handed on unchanged, before and after Close
